@@ -9,6 +9,7 @@ QUICK = [
     ("hashaff", "{4}", "2", "{0, 1}", "FALSE"),
     ("hashaff", "{5}", "1", "{0, 1}"),
     ("pair_hashaff_sumaff", "{2, 3}", "2", "{0, 1}"),
+    ("hashflip", "{3, 4}", "3", "{0, 1}"),
     ("sumadd", "{3}", "2", "{0, 1, 2}"),
     ("minadd", "{3}", "2", "{0, 2}"),
     ("maxadd", "{3}", "2", "{0, 2}"),
@@ -23,6 +24,7 @@ THOROUGH = [
     ("hashaff", "{5}", "3", "{0, 1}"),
     ("hashaff", "{2, 3}", "4", "{0, 1}"),
     ("pair_hashaff_sumaff", "{2, 3, 4}", "3", "{0, 1}"),
+    ("hashflip", "{2, 3, 4, 5}", "4", "{0, 1}"),
     ("sumadd", "{2, 3, 4}", "3", "{0, 1, 2}"),
     ("minadd", "{2, 3, 4}", "3", "{0, 1, 2}"),
     ("maxadd", "{2, 3, 4}", "3", "{0, 1, 2}"),
@@ -40,8 +42,8 @@ def build(ctx, v=None):
 
 def run(ctx, focus="ask"):
     what = {"ask": "ask()/debug() aggregates", "lb": "lower_bound / lower_bound_rev results and the aggregates shown to the predicate"}[focus]
-    ctx.rule = ("MC/GEN per algebra (hashaff = non-commutative hash under non-commuting affine maps, the six built-ins, three "
-                "Combinator nestings): one construction (fill / slice / iterator, all fill sequences) + up to Depth operations "
+    ctx.rule = ("MC/GEN per algebra (hashaff = non-commutative hash under non-commuting affine maps, hashflip = the same summaries "
+                "under one modifier of a zero-sized type, the six built-ins, three Combinator nestings): one construction (fill / slice / iterator, all fill sequences) + up to Depth operations "
                 "(set, modify with every modifier, ask, both searches with every monotone predicate of the family, "
                 "re-construction) on SegtreeImpl (B) in lockstep with Segtree (A); invariants: refinement of all queries in every "
                 "state, predicate arguments exact, ancestor-pending structure, Default = identity. One replay case per distinct "
